@@ -245,6 +245,52 @@ def run(ctx):
         if not (len(st_) == 1 and isinstance(st_[0], ast.Name) and st_[0].id in (va6, 'args') and len(dk_) == 1 and isinstance(dk_[0], ast.Name) and dk_[0].id in (ka6, 'kwargs')):
             own_args = False
             oke = False
+    # one entry per intercepted call, under the key of that call: the store primitive is used by the executor, the output recorder and the
+    # public record_data only - a decorator that writes further entries (the same value under the fallback keys, say) makes two aliases share
+    # what only one of them recorded
+    store = roles.record_data
+    tr6 = ctx.repo.cls('TapeRecorder')
+    allowed_callers = {roles.executor.qualname, roles.record_output.qualname}
+    other_writers = []
+    for f_ in ctx.repo.all_functions():
+        if f_.module is not store.module or f_ is store:
+            continue
+        for n in walk_own(f_.node):
+            if isinstance(n, ast.Call) and isinstance(n.func, ast.Attribute) and n.func.attr == store.name and isinstance(n.func.value, ast.Name) and n.func.value.id == 'self':
+                public = not f_.name.startswith('_') and f_.cls is tr6 and f_.qualname.count('.') == 1
+                if f_.qualname not in allowed_callers and not public:
+                    other_writers.append((f_, n))
+    ce.instance('entries are written by the executor / the output recorder / the public record_data only', store.qualname, not other_writers)
+    for f_, n in other_writers[:1]:
+        res.add(Finding('C06', 'C06.e', 'R-AGREE', f_.file, f_.qualname, n.lineno, norm(n)[:90],
+                        '%s writes an entry of its own (`%s`) besides the one the executor records under the call\'s key: a value recorded for one alias / '
+                        'argument list becomes the answer stored under another key' % (f_.qualname, norm(n)[:60])))
+    # key text is a function of alias and captured arguments alone, the same in every process: nothing that varies between interpreter runs
+    # (salted string hashes, object addresses, clocks, random numbers) goes into it
+    volatile = [n for f_ in [kb] + [cl] + beside for n in ast.walk(f_.node) if isinstance(n, ast.Call) and (
+        (isinstance(n.func, ast.Name) and n.func.id in ('hash', 'id')) or norm(n.func) in ('time.time', 'time', 'uuid.uuid4', 'uuid4', 'uuid.uuid1', 'uuid1', 'random.random', 'os.getpid'))]
+    # (helpers of the key builder that the normaliser left as calls)
+    for n in [x for x in ast.walk(kb.node) if isinstance(x, ast.Call) and isinstance(x.func, ast.Attribute) and isinstance(x.func.value, ast.Name) and
+              x.func.value.id in ('self', 'TapeRecorder')]:
+        h_ = ctx.repo.cls('TapeRecorder').lookup(n.func.attr)
+        if h_ is not None and h_ is not kb:
+            volatile += [y for y in ast.walk(h_.node) if isinstance(y, ast.Call) and isinstance(y.func, ast.Name) and y.func.id in ('hash', 'id')]
+    ce.instance('key text holds nothing that differs between interpreter runs (hash(), id(), clock, random)', kb.qualname, not volatile)
+    for n in volatile[:1]:
+        res.add(Finding('C06', 'C06.e', 'R-AGREE', kb.file, kb.qualname, n.lineno, norm(n)[:80],
+                        'the key contains `%s`, which differs between interpreter runs (string hashes are salted per process): the key built while '
+                        'replaying in another process is not the key the entry was recorded under' % norm(n)[:60]))
+    # fallback keys come from the key builder as well: a key derived from another key's text (replace / slicing / concatenation) rewrites
+    # whatever else in that text happens to look like the alias
+    derived = [n for f_ in [cl] + beside for n in ast.walk(f_.node) if isinstance(n, ast.Call) and isinstance(n.func, ast.Attribute) and
+               n.func.attr in ('replace', 'sub', 'subn', 'translate') and isinstance(n.func.value, ast.Name) and
+               any(isinstance(a_, ast.Assign) and any(isinstance(t_, ast.Name) and t_.id == n.func.value.id for t_ in a_.targets) and
+                   isinstance(a_.value, ast.Call) and isinstance(a_.value.func, ast.Attribute) and a_.value.func.attr == kb.name for a_ in ast.walk(cl.node))]
+    ce.instance('no key is derived from the text of another key', cl.qualname, not derived)
+    for n in derived[:1]:
+        res.add(Finding('C06', 'C06.e', 'R-AGREE', cl.file, cl.qualname, n.lineno, norm(n)[:90],
+                        'a lookup key is derived from the text of the main key (`%s`): the rewriting also hits argument text that looks like the alias, so '
+                        'the call is looked up under the key of a call with other arguments' % norm(n)[:70]))
     # the key is built from the arguments as they were passed: before the intercepted function runs, i.e. in the wrapper's own statements, not
     # inside a function object that is handed on and evaluated later
     deferred_k = [k for k in kcalls if any(isinstance(d_, (ast.Lambda, ast.FunctionDef)) and d_ is not cl.node and any(x is k for x in ast.walk(d_)) and
